@@ -76,7 +76,7 @@ def behaviours(ctx, out, num, depth, cfg="RaceDriver.sim.cfg", seed_off=0, with_
         if not states:
             continue
         m = re.search(r"^/\\ scn = (.*?)(?=^/\\ |\Z)", states[0], flags=re.M | re.S)
-        scn = to_json(parse_value(m.group(1)))
+        scn = {k: v for k, v in to_json(parse_value(m.group(1))).items() if k in ("sched", "workerOf", "W")}
         mf = re.search(r"^/\\ flt = (.*?)(?=^/\\ |\Z)", states[0], flags=re.M | re.S)
         fault = str(parse_value(mf.group(1))["kind"]) if mf else "none"
         script = []
@@ -108,6 +108,9 @@ def scn_signature(scn):
 def run_races(ctx, out, jobs, clauses, label):
     """jobs: list of dict(scn, script, seed, test_mode, qmax, offsets). Runs the real actors, validates with TLC.
     Only L1 failures whose clause is in `clauses` become violations of the calling property."""
+    import time as _t
+
+    t0 = _t.time()
     groups = {}
     index = {}
     stats = {"followed": 0, "skipped": 0, "hangs": 0, "incomplete": 0}
@@ -142,6 +145,8 @@ def run_races(ctx, out, jobs, clauses, label):
         groups.setdefault((job["test_mode"], job["qmax"]), []).append(trace)
         index[tid] = (job, trace)
         out.add_case({"scn": job["scn"], "sched": [(e["ev"], e["arg"]) for e in trace["events"]]}, nontrivial=len(trace["events"]) > 10)
+    t1 = _t.time()
+    out.note("%d races executed on the real actors in %.1fs (%d events)" % (len(jobs), t1 - t0, sum(len(t["events"]) for ts in groups.values() for t in ts)))
     for (test_mode, qmax), traces in sorted(groups.items(), key=str):
         v = tracecheck.validate("RaceDriver", "TraceRaceDriver", "TraceRaceDriver.cfg", traces, name="racetrace", cfg_text=trace_cfg(test_mode, qmax), chunk=60, timeout=1200)
         out.states += v.n_events
@@ -173,6 +178,7 @@ def run_races(ctx, out, jobs, clauses, label):
                     if prev[k] != cur[k]:
                         print("   ", k, "\n      before:", json.dumps(prev[k])[:900], "\n      after: ", json.dumps(cur[k])[:900])
         out.traces_validated += len(traces) - len(bad | set(v.l2))
+    out.note("trace validation by TLC took %.1fs" % (_t.time() - t1))
     return stats, index
 
 
